@@ -4,6 +4,13 @@ from .. import core
 
 NC = 64
 WRONG = ['!I', '!S', '!F', '!T', '!N']     # an Int, a String, a Float, a Type object, NULL where a probe element / key / value is expected
+# keys with boundary hash values: the probe key type hashes payload BH_BASE + BH_PER*b + r (r < BH_PER) to the b-th of
+# 2^64-1, 0, 1, 2^64-2, 2^63, 2^63-1, 2^63+1, 2^32, 2^32-1, 2^32+1, 2^64-2^32, 2^33, 0x7FF8.., 0xFFF8.., 0x7FF0.., 0x3FF0.., L, L-1, L+1, 41L, 41L-1, 2L-1
+# (L = product of the table sizes 5..1259); same table in harness/h_own.c (BH[]) and Cello/OwnConc.lean (bhTable)
+BH_BASE, BH_PER, BH_N = 1000, 8, 22
+def bkey(b, r=0): return BH_BASE + BH_PER * b + r
+BOUND_ALL = [bkey(b, r) for b in range(BH_N) for r in range(BH_PER)]
+BOUND_FEW = [bkey(0), bkey(0, 1), bkey(1), bkey(4), bkey(17), bkey(17, 1)]   # all-ones x2, zero, 2^63, L-1 x2: in every default key pool
 
 
 class Sim:
@@ -13,8 +20,9 @@ class Sim:
         self.rng = rng; self.k = {}; self.seq = {}; self.map = {}; self.lines = []
         self.paymax = paymax
         self.wrong = wrong                      # rate of calls with a wrong-typed element / key / value
-        # keys: several per hash value (probe hash = pay % 16 * 37) so that Table clusters form
-        self.keypool = keypool or [h + 16 * j for h in (0, 1, 2, 3, 5, 15) for j in range(6)]
+        # keys: several per hash value (probe hash = pay % 16 * 37) so that Table clusters form, and a few keys whose hash is a
+        # boundary value of a 64-bit hash (all-ones, zero, 2^63, nslots-1 modulo every table size)
+        self.keypool = keypool or ([h + 16 * j for h in (0, 1, 2, 3, 5, 15) for j in range(6)] + BOUND_FEW)
     def free(self):
         fr = [c for c in range(NC) if c not in self.k]
         return self.rng.choice(fr[:12]) if fr else None
@@ -118,6 +126,89 @@ class Sim:
                 elif q > j and r.random() < 0.3: v = self.w()
                 args += [k, v]
         self.emit(' '.join([f'newv {c} {self.kt(kind)}' if kind == 'L' else f'newm {c} {self.kt(kind)}'] + args))
+        return True
+    # ---- aliased arguments: the element / key / value argument is an object stored in a container (`@d[i]`, `@d.kK`, `@d.vK`) —
+    #      of the receiver itself (set(t, k, get(t, k)), rem(t, key_from_iteration), push(l, get(l, 0)), set(a, i, get(a, j))) or of
+    #      another container.  NOT generated: push / push_at of an Array's own element (KF-C04-push-own-element: bad-op here).
+    def ref(self, c, own=0.6, kinds='ALTR'):
+        """(token, payload) of a stored element, preferably of container c itself; None when nothing is stored anywhere"""
+        r = self.rng
+        cands = [d for d in self.of(kinds) if (self.seq.get(d) or self.map.get(d))]
+        if not cands: return None
+        others = [d for d in cands if d != c]
+        d = c if (c in cands and (r.random() < own or not others)) else (r.choice(others) if others else None)
+        if d is None: return None
+        if self.k[d] in 'AL':
+            xs = self.seq[d]; j = r.randrange(len(xs))
+            return f'@{d}[{j if r.random() < 0.6 else j - len(xs)}]', xs[j]
+        m = self.map[d]; k = r.choice(list(m))
+        return (f'@{d}.k{k}', k) if r.random() < 0.5 else (f'@{d}.v{k}', m[k])
+    def alias_seq_op(self, c):
+        r = self.rng; k = self.k[c]; xs = self.seq[c]; n = len(xs)
+        if k not in 'AL': return False
+        op = r.choice(['set', 'set', 'set', 'rem', 'push', 'push', 'pushat'])
+        pushy = op in ('push', 'pushat')
+        ref = self.ref(c, own=0.0 if (k == 'A' and pushy) else 0.65, kinds='AL' if r.random() < 0.7 else 'ALTR')
+        if ref is None or (k == 'A' and pushy and ref[0].startswith(f'@{c}[')): return False
+        tok, p = ref
+        if op == 'set':
+            i = self.idx(n, r.random() < 0.08); j = i + n if i < 0 else i
+            if 0 <= j < n: xs[j] = p
+            self.emit(f'set {c} {i} {tok}')
+        elif op == 'rem':
+            if p in xs: xs.remove(p)
+            self.emit(f'rem {c} {tok}')
+        elif op == 'push':
+            xs.append(p); self.emit(f'{r.choice(["push", "append"])} {c} {tok}')
+        else:
+            if k == 'A':
+                j = r.randrange(n + 1); i = j if r.random() < 0.6 else j - (n + 1); xs.insert(j, p)
+            elif n == 0 or r.random() < 0.3: i = 0; xs.insert(0, p)
+            else:
+                j = r.randrange(n); i = j if (j > 0 and r.random() < 0.6) else j - n
+                if i == 0: i = -n
+                xs.insert(j, p)
+            self.emit(f'pushat {c} {i} {tok}')
+        return True
+    def alias_map_op(self, c):
+        r = self.rng; m = self.map[c]
+        if self.k[c] not in 'TR': return False
+        shape = r.choice(['back', 'back', 'backk', 'kv', 'kfresh', 'vown', 'cross', 'other', 'rem', 'rem', 'remv'] if m else ['other', 'other', 'rem'])
+        if shape == 'back':                      # set(t, k, get(t, k)) with a fresh key object: the value argument IS the stored value
+            k = r.choice(list(m)); kt, kp, vt, vp = str(k), k, f'@{c}.v{k}', m[k]
+        elif shape == 'backk':                   # ... with the stored key object (foreach (k in t) set(t, k, get(t, k)))
+            k = r.choice(list(m)); kt, kp, vt, vp = f'@{c}.k{k}', k, f'@{c}.v{k}', m[k]
+        elif shape == 'kv':                      # stored key object, the value of another entry
+            k, k2 = r.choice(list(m)), r.choice(list(m)); kt, kp, vt, vp = f'@{c}.k{k}', k, f'@{c}.v{k2}', m[k2]
+        elif shape == 'kfresh':                  # stored key object, fresh value
+            k = r.choice(list(m)); kt, kp = f'@{c}.k{k}', k; vp = self.pay(); vt = str(vp)
+        elif shape == 'vown':                    # any key (existing or new), a stored value / key object of the same map as value
+            kp = r.choice(list(m)) if r.random() < 0.5 else self.key(); kt = str(kp)
+            k2 = r.choice(list(m)); vt, vp = (f'@{c}.v{k2}', m[k2]) if r.random() < 0.7 else (f'@{c}.k{k2}', k2)
+        elif shape == 'cross':                   # a stored VALUE object as key argument (its payload may or may not be a key)
+            k2 = r.choice(list(m)); kt, kp = f'@{c}.v{k2}', m[k2]
+            k3 = r.choice(list(m)); vt, vp = (f'@{c}.v{k3}', m[k3]) if r.random() < 0.5 else (str(self.pay()), None)
+            if vp is None: vp = int(vt)
+        elif shape == 'other':                   # objects stored in other containers
+            a, b = self.ref(c, own=0.0), self.ref(c, own=0.2)
+            if a is None and b is None: return False
+            if a is None or r.random() < 0.3: kp = self.key(); kt = str(kp)
+            else: kt, kp = a
+            if b is None: vp = self.pay(); vt = str(vp)
+            else: vt, vp = b
+            if '@' not in kt + vt: return False
+        else:
+            if shape == 'remv' and m:            # a stored value object as the key of rem
+                k2 = r.choice(list(m)); tok, kp = f'@{c}.v{k2}', m[k2]
+            elif m and r.random() < 0.75:
+                k = r.choice(list(m)); tok, kp = f'@{c}.k{k}', k
+            else:
+                a = self.ref(c, own=0.0)
+                if a is None: return False
+                tok, kp = a
+            m.pop(kp, None); self.emit(f'mrem {c} {tok}')
+            return True
+        m[kp] = vp; self.emit(f'mset {c} {kt} {vt}')
         return True
     # ---- sequences
     def idx(self, n, fail):
@@ -245,7 +336,7 @@ class Sim:
         self.emit(f'del {c}')
 
 
-def history(rng, nops, weights, paymax=40, keypool=None, maxlen=40, big=False, fail=0.08, wrong=0.04):
+def history(rng, nops, weights, paymax=40, keypool=None, maxlen=40, big=False, fail=0.08, wrong=0.04, alias=0.05):
     s = Sim(rng, paymax, keypool, wrong)
     kinds = [k for k, w in weights.items() for _ in range(w)]
     for _ in range(rng.randrange(2, 6)): s.new(rng.choice(kinds))
@@ -267,6 +358,7 @@ def history(rng, nops, weights, paymax=40, keypool=None, maxlen=40, big=False, f
             k = s.k[c]
             if k == 'X': continue
             if rng.random() < wrong and (s.typed_seq_op(c) if k in 'ALBC' else s.typed_map_op(c)): continue
+            if rng.random() < alias and (s.alias_seq_op(c) if k in 'AL' else s.alias_map_op(c) if k in 'TR' else False): continue
             if k in 'ALBC':
                 if len(s.seq[c]) > maxlen and not big:
                     s.seq[c] = s.seq[c][:maxlen // 2]; s.emit(f'resize {c} {maxlen // 2}')
@@ -278,7 +370,7 @@ def history(rng, nops, weights, paymax=40, keypool=None, maxlen=40, big=False, f
     return s.lines
 
 
-def growth(rng, n, kind, types=''):
+def growth(rng, n, kind, types='', keys=None):
     """grow one container to n elements (realloc growth / rehash through the prime table), copy it, shrink it"""
     L = []
     if kind in 'AL':
@@ -289,11 +381,12 @@ def growth(rng, n, kind, types=''):
         L += [f'popat 0 {rng.randrange(-3, 3)}' for _ in range(n // 2)]
         L += [f'resize 0 {n // 4}', 'pop 0', 'assign 1 2', 'resize 2 0']
     else:
-        keys = list(range(1, n + 1)); rng.shuffle(keys)
+        keys = list(keys) if keys else list(range(1, n + 1)); rng.shuffle(keys); n = len(keys)
         L.append(f'new 0 {kind}{types}')
         L += [f'mset 0 {k} {rng.randrange(1, 1000)}' for k in keys]
         L += ['copy 1 0', f'new 2 {"R" if kind == "T" else "T"}', 'assign 2 0']
         L += [f'mset 0 {rng.choice(keys)} {rng.randrange(1, 1000)}' for _ in range(n // 3)]      # replace / in place
+        L += [f'mset 0 {k} @0.v{k}' if rng.random() < 0.5 else f'mset 0 @0.k{k} @0.v{k}' for k in rng.sample(keys, min(len(keys), 8))]   # store-back
         rng.shuffle(keys)
         L += [f'mrem 0 {k}' for k in keys[: (3 * n) // 4]]                                      # shrink through the primes
         L += ['assign 1 0', 'resize 2 0']
@@ -310,8 +403,19 @@ class C05(Spec):
                  'records: the ownership steps are proved to be what set / rem / resize / rehash / displacement / back-shift / rotation / '
                  'predecessor copy do to the stored tokens; the model is tied to the C code by running generated histories on the '
                  'real containers with a probe element type and a token ledger, comparing per operation the constructed / finalised / '
-                 'in-place-assigned elements and the contents; independent ledger oracle under ASan')
-    level_text = ('Theorem C05_moves_array: for every store state (cells, nitems, block) of C04\'s Array model holding token-valued records and every Array operation with any argument, the store-level step (realloc, memmove, record write, eq scan, sort exchanges) reads no unwritten / out-of-block cell, succeeds exactly when the ownership step does and leaves in use exactly the ownership step\'s tokens (sort: a permutation), so records after + finalised = records before + constructed. '
+                 'in-place-assigned elements and the contents; independent ledger oracle under ASan. Arguments that are objects stored '
+                 'in a container (aliased arguments) are a second layer of the model (Cello/OwnAlias.lean: the argument is read when the '
+                 'code reads it), proved equal to the plain operation with the payloads resolved before the call; the probe key type '
+                 'hashes designated payloads to the boundary values of a 64-bit hash')
+    level_text = ('Theorems C05_aliased_as_resolved, C05_aliased_map_set_reads, C05_conservation_aliased_partial, C05_history_aliased_partial, C05_store_back_{tree,table}: '
+                  'for every world, receiver and call whose element / key / value argument is an object stored in a container — of the receiver itself '
+                  '(set(t, k, get(t, k)), rem(t, key_from_iteration), push(l, get(l, 0)), set(a, i, get(a, j))) or of another one — read by the model WHEN THE CODE READS IT '
+                  '(Tree_Set: the value argument after the key was assigned in place; Table_Set_Move: both into the swap space before the resident pair is destructed), '
+                  'the call is the plain call with the payloads resolved before it, so conservation, the invariant, exactly-once and live = sum of len hold over every history with such calls; '
+                  'the store-back idiom finalises nothing on a Tree (in place) and finalises the replaced pair once, after both reads, on a Table; '
+                  'C05_tree_set_destruct_first_refuted: the order destruct / zero / assign violates the same statement. '
+                  'C05_boundary_hashes: the hash function of the correspondence takes 2^64-1, 0, 1, 2^63, 2^63-1, 2^32(+-1), float bit patterns and L, L-1, L+1 (L a common multiple of every table size <= 1259 of the Table_Primes the translator reads), all < 2^64 (the model takes % on naturals); C05_moves_* hold for every hash function. '
+                  'Theorem C05_moves_array: for every store state (cells, nitems, block) of C04\'s Array model holding token-valued records and every Array operation with any argument, the store-level step (realloc, memmove, record write, eq scan, sort exchanges) reads no unwritten / out-of-block cell, succeeds exactly when the ownership step does and leaves in use exactly the ownership step\'s tokens (sort: a permutation), so records after + finalised = records before + constructed. '
                   'Theorem C05_list_assign_from_map: assign(List, non-empty Table / Tree) — refused after List_Clear — is in contract: nothing constructed, exactly the old elements finalised, invariant and live = sum of len preserved. '
                   'Theorems C05_moves_{table,table_rehash_displace,tree,tree_rotate_copy,histories,constructors} + C05_table_source_good: '
                   'for every hash function and every slot array / red-black tree satisfying the representation invariant of C02 / C03, the '
@@ -349,6 +453,11 @@ class C05(Spec):
             'explicit resize, rehash up and down, assign Table<->Tree), (d) growth to n elements then copy and shrink, (e) Box containers, '
             '(e\') List of Box, push_at of a Box at accepted and refused positions, assignment of an empty Table/Tree to a sequence and of a non-empty Table/Tree to a List (refused after the clear), self-assignment of every kind, '
             '(f) error-heavy (25% failing calls: empty pop, bad index, absent key/element, refused resize), '
+            '(h) aliased: 40% of the calls on small Lists / Arrays / Tables / Trees pass an object stored in a container as element / key / value argument — the stored value under the same key '
+            '(store-back, with a fresh and with the stored key object), the stored key object (iteration) as key of set and rem, a value object as key, the value / key of another entry, '
+            'own elements of a List to push / push_at / set / rem, own records of an Array to set / rem (also i = j), elements of other containers everywhere (5% in every other family; the grow cases store back 8 pairs); '
+            '(i) boundary hashes: Tables (and Trees) over keys whose hash is 2^64-1, 0, 1, 2^64-2, 2^63, 2^63+-1, 2^32, 2^32+-1, 2^64-2^32, 2^33, NaN / inf / 1.0 bit patterns, L, L+-1, 41L, 41L-1, 2L-1 '
+            '(2-4 keys per value; six of them in every default key pool), and a growth case over all 176 boundary keys through the sizes 5..197; '
             '(g, run first) type-refused: a third of the calls carry an Int / String / Float / Type object / NULL where a probe element, key or value is expected — '
             'push, append, push_at (accepted and refused index), set, rem, concat from a Tuple on List; set, rem, refused-index push_at on Array; set with wrong key, wrong value '
             '(existing key, new key), both, and rem with wrong key on Table and Tree (also on an emptied Table); constructors of List / Table / Tree with the wrong-typed argument '
@@ -359,6 +468,7 @@ class C05(Spec):
             'non-trivial item = one executed operation whose observation shows an ownership event (element constructed, finalised or '
             'assigned in place) or a raised exception; distinct = distinct (operation text, observation) pairs.')
     trusted_base = ('harness/h_own.c + lean/Driver/Own.lean (step correspondence is testing)',
+                    'the table of boundary hash values is written twice (BH[] in harness/h_own.c, bhTable in Cello/OwnConc.lean); a mismatch shows as a layout divergence on the first boundary key',
                     'Cello/Table.lean and Cello/RBTree.lean mirror src/Table.c and src/Tree.c slot by slot / node by node: validated by the C02 / C03 engines (h_table, h_tree), imported here',
                     'Cello/SeqStore.lean ArrS mirrors the record block of src/Array.c (realloc, memmove, nitems / nslots): validated cell by cell by the C04 engine (h_seq), imported here for C05_moves_array',
                     'translate/g_own.py (regex over the container sources: which functions call destruct/assign/memcpy/cast, where the casts stand relative to the first effect)',
@@ -370,7 +480,9 @@ class C05(Spec):
                    'resize(list, n) with n > len excluded: List_Resize links zero-filled, never constructed elements (known finding own-list-resize-raw)',
                    'assign(Array, non-empty Table or Tree) excluded: refused (ValueError) after Array_Assign has set len = len(source) over unconstructed records (known finding own-array-assign-partial, site Array_Assign); from an empty Table / Tree it is in contract and generated; assign(List, Table or Tree) is in contract and generated for empty AND non-empty sources (a non-empty one raises ValueError after List_Clear: the old elements are finalised once, live = sum of len — C05_list_assign_from_map; that the failed call changed its receiver is C12\'s KF-C12-assign-clears)',
                    'assign(Table or Tree, Array or List) is not modelled (the map takes Int as key type and refuses probe keys afterwards; the model does not track element types), concat(x, x) diverges (KF-C04-self-concat): both are answered bad-op by harness and model and a history containing one is outside the contract (inContract requires that the operation was executed)',
-                   'arguments are fresh objects, never elements of the container they are passed to (push(a, get(a, i)): Array_Push reads the argument after realloc — C04\'s subject)',
+                   'arguments that are stored objects (references @d[i], @d.kK, @d.vK into the receiver or another container) are modelled and generated for push / push_at / set / rem / Table and Tree set / rem; NOT executed (bad-op in harness and model, outside the contract): push / push_at of an element of the SAME Array (Array_Push reads the argument after Array_Reserve_More, Array_Push_At after the memmove: KF-C04-push-own-element, recorded under C04 — excluded also when the Array would not have to grow, the ownership model does not track capacity), references into containers of Box, references that designate nothing; concat / constructors / assign with operands holding own elements are C04\'s subject (same finding)',
+                   'a stored object passed where `cast` demands the exact key / value type and the object has the other probe type is passed as a converted copy (the two probe types are convertible)',
+                   'keys are probe objects whose Hash the harness chooses (boundary values included); Tables keyed by the library\'s own Int / Float / String objects are the C02 / C10 engines\' subject (such keys have no observable finalisation; to Table.c a key is its hash, its size and its Cmp)',
                    'invariants are stated after every operation; nothing is claimed about the states inside one operation',
                    'wrong-typed arguments (Int, String, Float, Type object, NULL) are generated for every call that is atomic on a type error; NOT generated: Array push / push_at at an accepted index / concat with a wrong-typed element (the array grows before the element\'s own type check: KF-C12-array-push-type, recorded under C12 — the model mirrors it, the harness prints that signature if a replay enters it), new(Array, T, ...) with a wrong-typed element (known finding own-array-new-partial), concat(list, ...) with well-typed items before the wrong one (they stay: KF-C12-list-concat-partial; ownership stays consistent, one corpus line); containers of Box take any object (typed calls are bad-op there)',
                    'a type-refused List_Push / List_Push_At / List_Concat / List_New loses the unlinked node (raw calloc memory, never an element): not an ownership event, not observed here',
@@ -388,6 +500,15 @@ class C05(Spec):
         for i in range(max(nh // 2, 3)):
             add(f'refused{i}', history(rng, nops // 2, {'L': 3, 'T': 3, 'R': 3, 'A': 2}, wrong=0.35, maxlen=10,
                                        keypool=list(range(1, 13)) if i % 2 else None))
+        # aliased arguments (stored objects passed back into their own container / into others) on small containers
+        for i in range(max(nh // 3, 3)):
+            add(f'alias{i}', history(rng, nops // 2, {'L': 3, 'T': 3, 'R': 3, 'A': 2}, alias=0.4, wrong=0.02, maxlen=10,
+                                     keypool=(list(range(1, 13)) + BOUND_FEW[:3]) if i % 2 else None))
+        # keys with boundary hash values: all-ones, 0, 1, 2^63, 2^32 multiples, float bit patterns, 0 / nslots-1 modulo every table size
+        for i in range(max(nh // 3, 3)):
+            pool = [bkey(b, r) for b in range(BH_N) for r in range(2 + i % 3)] + [0, 1, 16, 17]
+            add(f'hashb{i}', history(rng, nops, {'T': 4, 'R': 1}, keypool=pool, maxlen=30 if i % 2 else 12, alias=0.12))
+        add('growTb', growth(rng, 0, 'T', rng.choice(['pg', 'gp', '']), keys=BOUND_ALL))
         for i in range(nh): add(f'mixed{i}', history(rng, nops, allk))
         for i in range(nh): add(f'seq{i}', history(rng, nops, {'A': 3, 'L': 3}, paymax=12))
         for i in range(nh): add(f'map{i}', history(rng, nops, {'T': 3, 'R': 2}, maxlen=30))
@@ -426,6 +547,13 @@ class C05(Spec):
             if ' ret=[]' not in o: acc['ops_finalising'] = acc.get('ops_finalising', 0) + 1
             if ' upd=[]' not in o: acc['ops_assigning_in_place'] = acc.get('ops_assigning_in_place', 0) + 1
             if name == 'mset' and ' ret=[]' not in o: acc['table_replace'] = acc.get('table_replace', 0) + 1
+            if '@' in op:
+                acc['aliased_calls'] = acc.get('aliased_calls', 0) + 1
+                acc['aliased_' + name] = acc.get('aliased_' + name, 0) + 1
+                c0 = op.split()[1]
+                if any(t.startswith(f'@{c0}[') or t.startswith(f'@{c0}.') for t in op.split()[2:]): acc['aliased_own_container'] = acc.get('aliased_own_container', 0) + 1
+            if name in ('mset', 'mrem') and any(t.isdigit() and BH_BASE <= int(t) < BH_BASE + BH_PER * BH_N for t in op.split()[2:3]):
+                acc['boundary_hash_key_ops'] = acc.get('boundary_hash_key_ops', 0) + 1
             if '!' in op:
                 acc['wrong_typed_calls'] = acc.get('wrong_typed_calls', 0) + 1
                 acc['wrong_typed_' + name] = acc.get('wrong_typed_' + name, 0) + 1
